@@ -1,3 +1,72 @@
-"""vcheck configuration of work group I1: PROPS = {"Cxx": {"families": [fam("name", quick_n, thorough_n)], "defects": ["Dn"]}}"""
+"""vcheck configuration of work group I1: PROPS = {"Cxx": {"families": [fam("name", quick_n, thorough_n)], "defects": ["Dn"]}}
 
-PROPS = {}
+The composed ops run the model FROM THE BYTES of the lists (storage scan with the modelled parser -> engines),
+see harness/op_i1.go and lean/UF/Driver/Ops/GroupI1.lean.  They are added to the properties whose composed
+theorems (UF/Props/C01Compose.lean, C02Compose.lean, C11Compose.lean, C15Compose.lean) they tie to the code.
+"""
+import glob as _glob
+import importlib.util as _ilu
+import os as _os
+
+
+def _earlier(prop, key):
+    """The value another group's file (loaded before this one) gives `key` of `prop`: the merge in vconfig.py
+    keeps only `families` and `defects` of earlier files, so the descriptive keys are carried over here."""
+    out = None
+    here = _os.path.basename(__file__)
+    for f in sorted(_glob.glob(_os.path.join(_os.path.dirname(_os.path.abspath(__file__)), "vconfig_*.py"))):
+        if _os.path.basename(f) >= here:
+            continue
+        spec = _ilu.spec_from_file_location("_i1_" + _os.path.basename(f)[:-3], f)
+        m = _ilu.module_from_spec(spec)
+        m.fam = fam  # noqa: F821 (injected by vconfig.py)
+        try:
+            spec.loader.exec_module(m)
+        except Exception:
+            continue
+        v = getattr(m, "PROPS", {}).get(prop, {}).get(key)
+        if v is not None:
+            out = v
+    return out
+
+
+_CHAIN = ("i1.chain (composition): 1-3 lists given as BYTES (network rules of all three lookup tables, hosts lines, bare domains, "
+          "cosmetic rules, comments, invalid and mutated lines, padding, CRLF / mixed line ends / no final newline, ids incl. "
+          "negative and extreme, IgnoreCosmetic on/off) + one request + oracle tables; Go = real RuleStorage + NetworkEngine.MatchAll; "
+          "model = storage scan with the modelled NewRule -> engine model -> matchAll with retrieval through the storage model; "
+          "spec = filter over the lines parsed one by one; answers = sorted sets of rule texts; non-trivial = non-empty answer")
+_SCAN = ("i1.scan (composition): the same list generator; Go = RuleStorageScanner (storage index, kind, text, list id of every "
+         "yielded rule); model = storage scan with the modelled NewRule (TrimSpace, comment / cosmetic / hosts / network dispatch); "
+         "spec = reference scan (split at newlines, index computed arithmetically)")
+_DNS = ("i1.dnschain (composition): the same list generator (DNS-style lines) + one DNS request; Go = DNSEngine.MatchRequest; "
+        "model = storage scan with the modelled NewRule -> DNS engine model with the modelled GetDNSBasicRule; spec = reference "
+        "scan over the lines parsed one by one; answer = (network rule texts)|class of NetworkRule|(v4)|(v6)|matched")
+_COS = ("i1.coschain (composition): 1-3 lists given as BYTES (##/#@# rules of every shape among comments, hosts lines with ' ##', "
+        "network rules, invalid and mutated lines, padding, CRLF, IgnoreCosmetic on/off) + hostname + flags; Go = real RuleStorage + "
+        "CosmeticEngine.Match; model = storage scan with the modelled NewRule / NewCosmeticRule -> cosmetic lookup table; spec = reference "
+        "over the lines parsed one by one; answer = (generic selectors)|(specific selectors)")
+
+
+def _entry(prop, fams, text):
+    e = {"families": fams, "defects": []}
+    prev = _earlier(prop, "rule")
+    e["rule"] = (prev + " || " if prev else "") + text
+    for key in ("coverage_extra", "explanation", "assumptions", "extra", "level"):
+        v = _earlier(prop, key)
+        if v is not None:
+            e[key] = v
+    return e
+
+
+_C11_NOTE = ("the parser assumption above (TrimsFirst) is DISCHARGED for the modelled rules.NewRule by UF/Props/C11Compose.lean "
+             "(c11_trimsFirst_real, c11_real); the composed ops i1.chain / i1.scan run the modelled parser instead of the oracle table")
+
+PROPS = {
+    "C01": _entry("C01", [fam("i1.chain", 300, 5000, seeds=4)], _CHAIN),
+    "C11": _entry("C11", [fam("i1.chain", 300, 5000, seeds=4), fam("i1.scan", 300, 5000, seeds=4)], _CHAIN + " || " + _SCAN),
+    "C02": _entry("C02", [fam("i1.dnschain", 300, 5000, seeds=4)], _DNS),
+    "C15": _entry("C15", [fam("i1.coschain", 300, 5000, seeds=4)], _COS),
+}
+
+if isinstance(PROPS["C11"].get("assumptions"), list):
+    PROPS["C11"]["assumptions"] = PROPS["C11"]["assumptions"] + [_C11_NOTE]
